@@ -226,10 +226,12 @@ class CategoricalCalibration(keras.layers.Layer):
     if self.units == 1:
       # This can be slightly faster as it uses matmul.
       return tf.matmul(
-          tf.one_hot(tf.squeeze(inputs, axis=[-1]), depth=self.num_buckets),
+          tf.one_hot(tf.squeeze(inputs, axis=[-1]), depth=self.num_buckets,
+                     dtype=self.kernel.dtype),
           self.kernel)
     result = tf.reduce_sum(
-        tf.one_hot(inputs, axis=1, depth=self.num_buckets) * self.kernel,
+        tf.one_hot(inputs, axis=1, depth=self.num_buckets,
+                   dtype=self.kernel.dtype) * self.kernel,
         axis=1)
 
     if self.split_outputs:
